@@ -3,7 +3,8 @@
    NV.Bam.Decode (io/reader/record.rs, record/codec/decoder*.rs, slices of record_ref.rs),
    bin = NV.Index.Bins.reg2bin 14 5 (shared with C17). *)
 From Coq Require Import List NArith ZArith Bool Lia ZifyBool ZifyNat ZifyN.
-From NV Require Import Index.Bins Bam.Record Bam.Encode Bam.Decode Bam.Lazy Bam.CodecProofs Bam.AuxProofs Bam.LazyProofs Bam.LazyCigarProofs Bam.LazyDataProofs.
+From NV Require Import Index.Bins Bam.Record Bam.Encode Bam.Decode Bam.Lazy Bam.CodecProofs Bam.AuxProofs Bam.LazyProofs Bam.LazyCigarProofs Bam.LazyDataProofs Bam.File Bam.FileProofs Bam.FileBgzf Bam.FileBgzfProofs Bam.FileSchedProofs.
+From NV Require Sam.Header Sam.HeaderProofs Sam.BamHeader Bgzf.Frame Bgzf.Writer Bgzf.Reader Bgzf.Inflate Io.Source Io.ReadExactProofs Io.Run.
 Import ListNotations.
 Open Scope N_scope.
 
@@ -356,3 +357,110 @@ Example c05_example_reject :
   encode 1 (mkRecord None 0 None (Some 2147483650) None [] None None 0%Z [] [] []) = Err InvalidInput /\
   encode 1 (mkRecord None 0 None None None [(2, 268435456)] None None 0%Z [] [] []) = Err InvalidInput.
 Proof. split; vm_compute; reflexivity. Qed.
+
+(* ------------------------------------------------------------------------------------------
+   FILE LEVEL.  A BAM file is BGZF( magic + header block + framed records ).  NV.Bam.File models
+   what bam::io::Writer writes to / bam::io::Reader reads from its inner stream: write_header
+   (C06's NV.Sam.BamHeader.write_bam_header) then one encode per record; read_header
+   (read_bam_header) then read_record_buf until Ok(0) or an error.
+   For every header and every record list the writer accepts, reading the written stream returns
+   the header, the normalised records in order, and then a clean EOF.  [wf_header] is C06's
+   statement of the sam::Header invariants; [rec_ok] = wf + wf_data + NoDup tags of c05_decode_encode. *)
+Theorem c05_file_roundtrip :
+  forall h rs bs,
+    Sam.HeaderProofs.wf_header h -> Forall rec_ok rs ->
+    write_file h rs = Ok bs ->
+    read_file bs = Ok (h, (map norm rs, EndEof)).
+Proof. exact file_roundtrip. Qed.
+Print Assumptions c05_file_roundtrip.
+
+(* a file is refused only because its header or one of its records is: the first record the
+   encoder rejects, with that record's error; every record before it was written *)
+Theorem c05_file_reject_is_record_reject :
+  forall nref rs e, write_records nref rs = Err e ->
+    exists pre r post, rs = pre ++ r :: post /\ encode nref r = Err e /\
+                       exists bs, write_records nref pre = Ok bs.
+Proof. exact write_records_err. Qed.
+Print Assumptions c05_file_reject_is_record_reject.
+
+(* the reader's iteration ends on every stream (the out-of-fuel result of the model is unreachable) *)
+Theorem c05_file_read_terminates :
+  forall bs h l e, read_file bs = Ok (h, (l, e)) -> e <> EndNoFuel.
+Proof. exact read_file_fuel. Qed.
+Print Assumptions c05_file_read_terminates.
+
+(* the lazy reader (bam::io::Reader::read_record) frames the same stream into exactly the encoded
+   bodies: each is accepted by validate(), decodes to the normalised record, then a clean EOF *)
+Theorem c05_file_lazy_framing :
+  forall nref rs rb, Forall rec_ok rs -> write_records nref rs = Ok rb ->
+    exists bodies,
+      Forall2 (fun r b => encode_body nref r = Ok b /\ decode_body b = Ok (norm r) /\ validate b = Ok tt) rs bodies /\
+      rb = concat (map (fun b => leW 4 (lenN b) ++ b) bodies) /\
+      Forall (fun b => 32 <= lenN b < 4294967296) bodies /\
+      forall fuel, (length rs < fuel)%nat -> frame_bodies fuel rb = (bodies, EndEof).
+Proof. exact bodies_written. Qed.
+Print Assumptions c05_file_lazy_framing.
+
+(* through BGZF (C01's writer and reader models, read-only): however the stream is cut into
+   write_all calls, at whatever level argument and however the writer is disposed of (finish,
+   try_finish, drop), the BGZF reader's read_to_end returns the stream, which reads back as the
+   header, the records and a clean EOF.  With the stored-block codec (what the real writer emits at
+   CompressionLevel::NONE, compared byte for byte in the `file bgzf0` cases) no hypothesis is left. *)
+Theorem c05_file_roundtrip_bgzf_level0 :
+  forall h rs bs lvl chunks e,
+    Sam.HeaderProofs.wf_header h -> Forall rec_ok rs ->
+    write_file h rs = Ok bs -> concat chunks = bs ->
+    let o := Bgzf.Writer.run_script Bgzf.Inflate.deflate_l0 lvl (map Bgzf.Writer.OWriteAll chunks) e in
+    exists un, Bgzf.Reader.reader_read_to_end Bgzf.Inflate.inflate (Bgzf.Writer.o_sink o) = (un, Bgzf.Frame.Ok tt) /\
+               read_file un = Ok (h, (map norm rs, EndEof)).
+Proof. exact file_roundtrip_bgzf_level0. Qed.
+Print Assumptions c05_file_roundtrip_bgzf_level0.
+
+(* for any DEFLATE codec: C01's premises (a staging buffer compressed at level 0 fits a block;
+   inflate after deflate is the identity; the EOF block's stream inflates to nothing) *)
+Theorem c05_file_roundtrip_bgzf :
+  forall (deflate : N -> list N -> list N) (inflate : list N -> N -> option (list N)) (lvl : N),
+    (forall x, Bgzf.Frame.lenN x <= Bgzf.Writer.MAX_BUF_SIZE ->
+               Bgzf.Frame.lenN (deflate 0 x) <= Bgzf.Writer.MAX_COMPRESSED_SIZE) ->
+    (forall (l : N) x, Bgzf.Frame.lenN x <= Bgzf.Frame.BGZF_MAX_ISIZE -> inflate (deflate l x) (Bgzf.Frame.lenN x) = Some x) ->
+    inflate [3; 0] 0 = Some [] ->
+    forall h rs bs chunks e,
+      Sam.HeaderProofs.wf_header h -> Forall rec_ok rs ->
+      write_file h rs = Ok bs -> concat chunks = bs ->
+      let o := Bgzf.Writer.run_script deflate lvl (map Bgzf.Writer.OWriteAll chunks) e in
+      exists un, Bgzf.Reader.reader_read_to_end inflate (Bgzf.Writer.o_sink o) = (un, Bgzf.Frame.Ok tt) /\
+                 read_file un = Ok (h, (map norm rs, EndEof)).
+Proof. exact file_roundtrip_bgzf. Qed.
+Print Assumptions c05_file_roundtrip_bgzf.
+
+(* the two BGZF entry points the correspondence check runs are inverse on every stream *)
+Theorem c05_bgzf_l0_roundtrip : forall bs, bgzf_read_l0 (bgzf_file_l0 bs) = Some bs.
+Proof. exact bgzf_l0_roundtrip. Qed.
+Print Assumptions c05_bgzf_l0_roundtrip.
+
+(* composition with C12 (NV.Io.Run.bam_read_records = io/reader/record.rs::read_record run on a
+   scripted source, read-only): on the record part of a written file, under EVERY delivery schedule
+   (any chunking of the reads, any number of Interrupted results) the reader returns the block sizes
+   of the encoded bodies, each of which validate() accepts and the decoder decodes to the normalised
+   record, then Ok(0), and the source is exhausted *)
+Theorem c05_file_framing_any_schedule :
+  forall nref rs rb, Forall rec_ok rs -> write_records nref rs = Ok rb ->
+    exists bodies,
+      Forall2 (fun r b => encode_body nref r = Ok b /\ decode_body b = Ok (norm r) /\ validate b = Ok tt) rs bodies /\
+      forall s m, Io.ReadExactProofs.rep_src s rb m ->
+        exists s' m',
+          Io.Run.bam_read_records (S (length rs)) s
+            = (map (fun b => Io.Run.RecOk (lenN b)) bodies ++ [Io.Run.RecOk 0], s') /\
+          Io.ReadExactProofs.rep_src s' [] m'.
+Proof. exact file_framing_any_schedule. Qed.
+Print Assumptions c05_file_framing_any_schedule.
+
+(* non-vacuity: a header with two reference sequences and two records (the second with aux data) *)
+Definition ex_header : Sam.Header.header :=
+  Sam.Header.mkHeader (Some (Sam.Header.mkHd 1 6 [])) [Sam.Header.mkSq [115; 113; 48] 100000 []; Sam.Header.mkSq [115; 113; 49] 2147483647 []] [] [] [].
+Example c05_example_file :
+  exists bs, write_file ex_header [ex_rec; ex_rec_data] = Ok bs /\
+    read_file bs = Ok (ex_header, ([norm ex_rec; norm ex_rec_data], EndEof)) /\
+    read_file (firstn (length bs - 1) bs) = Ok (ex_header, ([norm ex_rec], EndErr UnexpectedEof)).
+Proof. eexists. split; [vm_compute; reflexivity|]. split; vm_compute; reflexivity. Qed.
+
